@@ -76,6 +76,35 @@ func histWorker(a []string) {
 			for it := 0; it < iters; it++ {
 				id := (uint64(proc+1)<<40 | uint64(g)<<28 | uint64(it)) + 100
 				e := hev{Proc: proc, G: g}
+				if mode == "append" {
+					// the counter is the file length; t returns append(old, '+'), which writes
+					// into its argument's spare capacity (the result aliases the argument),
+					// sometimes the argument itself (no change) or a fresh slice
+					e.Op = "I"
+					variant := r.Intn(8)
+					e.Inv = monoNow()
+					err := lockedfile.Transform(path, func(old []byte) ([]byte, error) {
+						if len(old) == 0 || old[0] != 's' || strings.Trim(string(old[1:]), "+") != "" {
+							e.Bad = fmt.Sprintf("len=%d:head=%x", len(old), head(old))
+						}
+						e.A = uint64(len(old)) - 1
+						switch variant {
+						case 0: // the argument itself: nothing changes
+							e.B = e.A
+							return old, nil
+						case 1: // never aliases
+							e.B = e.A + 1
+							return append(old[:len(old):len(old)], '+'), nil
+						default: // in place when the capacity allows
+							e.B = e.A + 1
+							return append(old, '+'), nil
+						}
+					})
+					e.Resp = monoNow()
+					e.OK = err == nil
+					emit(e)
+					continue
+				}
 				if mode == "incr" {
 					e.Op = "I"
 					e.Inv = monoNow()
@@ -344,7 +373,7 @@ func checkRegister(evs []hev, initID uint64, final []byte) []histFinding {
 
 // checkIncr: the counter history.  Every successful Transform saw a distinct value, the
 // values seen are exactly 0..n-1 and the file ends at n.
-func checkIncr(evs []hev, final []byte) []histFinding {
+func checkIncr(evs []hev, final []byte, mode string) []histFinding {
 	var out []histFinding
 	seen := map[uint64]hev{}
 	n := uint64(0)
@@ -353,7 +382,7 @@ func checkIncr(evs []hev, final []byte) []histFinding {
 			out = append(out, histFinding{"torn-read", "Transform was given bytes that are not a counter: " + e.Bad, []hev{e}})
 			continue
 		}
-		if !e.OK {
+		if !e.OK || e.B == e.A { // failed, or t returned its argument: no update
 			continue
 		}
 		n++
@@ -363,6 +392,12 @@ func checkIncr(evs []hev, final []byte) []histFinding {
 		seen[e.A] = e
 	}
 	got, err := strconv.ParseUint(string(bytes.TrimSpace(final)), 10, 64)
+	if mode == "append" {
+		got, err = uint64(len(final))-1, nil
+		if len(final) == 0 {
+			err = fmt.Errorf("empty")
+		}
+	}
 	if err != nil || got != n {
 		out = append(out, histFinding{"lost-update", fmt.Sprintf("%d successful increments but the file holds %q", n, head(final)), nil})
 	}
@@ -376,7 +411,7 @@ func checkIncr(evs []hev, final []byte) []histFinding {
 	sort.Slice(byInv, func(i, j int) bool { return byInv[i].Inv < byInv[j].Inv })
 	for _, e := range byInv {
 		for j < len(byResp) && byResp[j].Resp < e.Inv {
-			if byResp[j].OK && int64(byResp[j].A) > maxSeen {
+			if byResp[j].OK && byResp[j].B != byResp[j].A && int64(byResp[j].A) > maxSeen {
 				maxSeen, maxEv = int64(byResp[j].A), byResp[j]
 			}
 			j++
